@@ -256,7 +256,7 @@ Section Safety.
     exists fi f (b : block V), nth_error fs fi = Some f /\ In b (f_blocks f) /\
       l_file c = fi /\ l_min c = b_min b /\ l_max c = b_max b /\ l_data c = b_data b /\
       l_tombs c = f_tombs f /\
-      l_rmin c = (if asc then MinInt64 else add1_64 t) /\ l_rmax c = (if asc then sub1_64 t else MaxInt64).
+      l_rmin c = init_rmin asc t /\ l_rmax c = init_rmax asc t.
 
   Lemma locations_from_block asc t fs c : In c (locations fs t asc) -> from_block asc t fs c.
   Proof.
@@ -265,7 +265,7 @@ Section Safety.
       exists fi f (b : block V), nth_error fs fi = Some f /\ In b (f_blocks f) /\
         l_file c = (k + fi)%nat /\ l_min c = b_min b /\ l_max c = b_max b /\ l_data c = b_data b /\
         l_tombs c = f_tombs f /\
-        l_rmin c = (if asc then MinInt64 else add1_64 t) /\ l_rmax c = (if asc then sub1_64 t else MaxInt64)).
+        l_rmin c = init_rmin asc t /\ l_rmax c = init_rmax asc t).
     { clear fs. induction fs as [|f fs IH]; intros k Hin; cbn in Hin; [tauto|].
       apply in_app_or in Hin as [Hin|Hin].
       - unfold file_locs in Hin.
@@ -293,7 +293,7 @@ Section Safety.
   (** ** the safety theorem *)
   Definition sound_point (fs : list (tfile V)) (t : Z) (asc : bool) (p : Z * V) : Prop :=
     exists f (b : block V), In f fs /\ In b (f_blocks f) /\ In p (b_data b) /\ dead (f_tombs f) p = false /\
-      (if asc then ~ (MinInt64 <= tm p <= sub1_64 t) else ~ (add1_64 t <= tm p <= MaxInt64)).
+      ~ (init_rmin asc t <= tm p <= init_rmax asc t).
 
   Lemma run_cursor_sound (mrg : arr -> arr -> arr) :
     (forall a b, ssorted a -> ssorted b -> ssorted (mrg a b)) ->
@@ -309,7 +309,15 @@ Section Safety.
     unfold new_cursor in Hc. cbn [k_seeks] in Hc.
     apply sort_locs_In, locations_from_block in Hc as (fi & f & b & Hf & Hb & _ & _ & _ & Hdat & Htb & Hmin & Hmax).
     exists f, b. rewrite <- Hdat, <- Htb. apply nth_error_In in Hf. repeat split; auto.
-    rewrite Hmin, Hmax in Hrng. destruct asc; exact Hrng.
+    rewrite Hmin, Hmax in Hrng. exact Hrng.
+  Qed.
+
+  (** outside the initial read range = at/after (at/before) the seek time, for EVERY int64 seek time *)
+  Lemma init_range_seek asc t x : MinInt64 <= t <= MaxInt64 -> MinInt64 <= x <= MaxInt64 ->
+    (~ (init_rmin asc t <= x <= init_rmax asc t) <-> if asc then t <= x else x <= t).
+  Proof.
+    unfold init_rmin, init_rmax, MinInt64, MaxInt64. intros Ht Hx.
+    destruct asc; [destruct (t =? -9223372036854775808) eqn:E|destruct (t =? 9223372036854775807) eqn:E]; lia.
   Qed.
 End Safety.
 
